@@ -820,6 +820,12 @@ def weave_fn(src, container, name, nth, opts, subs, mode, sig_only=False):
         # contract, Verus then knows nothing about its result, and a harmless rewrite would fail to verify (a false alarm)
         nheads = len([m for m in re.finditer(r'\|[A-Za-z0-9_,: ]*\|', b.text) if m.start() > bo and b.mask[m.start()] and closure_head_at(b.text, m.start())])
         ntup = len([m for m in re.finditer(r'\|\s*\([^|()]*\)\s*\|', b.text) if m.start() > bo and b.mask[m.start()] and closure_head_at(b.text, m.start())])
+        # a SAFE function under contract: the number of unchecked operations in its body is locked.  The contract of a safe function speaks
+        # about arguments inside its precondition; what happens outside it (panic, not an out-of-bounds access: C08) rests on WHICH
+        # operations are unchecked, so a new one means the safety argument has to be looked at again - undecided, not passed
+        if not re.search(r'\bunsafe\s+fn\b', b.text[:bo]):
+            nun = len([m for m in re.finditer(r'_unchecked\s*\(|\bfrom_raw_parts(?:_mut)?\s*\(|\bunsafe\s*\{', raw) if code_mask(raw)[m.start()]])
+            check_anchor('%s|unchecked-ops' % akey, nun)
         want_ = anchor_lock().get('%s|closure-heads' % akey)
         if want_ is not None and nheads + ntup > want_:
             # closures the proof was not written for.  Before giving up: R18 - `E.map(|PAT| X)` on an Option is, by std's definition,
